@@ -375,7 +375,7 @@ func init() {
 		New:        func() any { return &C13Case{} },
 		Check:      func(c any) Result { return checkC13(c.(*C13Case)) },
 		Quick:      250,
-		Thorough:   2500,
+		Thorough:   12000,
 		RaceWorker: true,
 	})
 }
